@@ -30,6 +30,15 @@ class Rec:
         self.name = name; self.f = f
 
 
+class PySeq:
+    """sequence of records with a concrete length (only in bounded views where every index is a constant)"""
+    def __init__(self, et, items):
+        self.et = et; self.items = list(items)
+
+    @property
+    def n(self): return z3.IntVal(len(self.items))
+
+
 class Iter:
     """iterator value: position `off` in the sequence designated by IR expression `base`"""
     def __init__(self, base, off):
@@ -228,7 +237,7 @@ class Engine:
             et = IR.elem(t)
             if IR.is_seq(et):
                 return Seq(et, z3.K(z3.IntSort(), z3.K(z3.IntSort(), self.default_val(IR.elem(et), st))), z3.IntVal(0), z3.K(z3.IntSort(), z3.IntVal(0)))
-            if et.startswith('rec:'): return Seq(et, None, z3.IntVal(0))
+            if et.startswith('rec:'): return PySeq(et, [])
             return Seq(et, z3.K(z3.IntSort(), self.default_val(et, st)), z3.IntVal(0))
         return self.fresh_val(t, 'uninit', st)
 
@@ -238,7 +247,7 @@ class Engine:
             return Seq(a.et, z3.If(c, a.arr, b.arr), z3.If(c, a.n, b.n), None if a.lens is None else z3.If(c, a.lens, b.lens))
         if isinstance(a, Rec):
             return Rec(a.name, {k: self.ite_val(c, a.f[k], b.f[k]) for k in a.f})
-        if isinstance(a, (Fun, Str, Iter)) or a is None: return a
+        if isinstance(a, (Fun, Str, Iter, PySeq)) or a is None: return a
         if a is b: return a
         a, b = self.unify(a, b)
         return z3.If(c, a, b)
@@ -323,6 +332,12 @@ class Engine:
     def e_index(self, e, st):
         b = self.ev(e.base, st)
         i = self.ev(e.idx, st)
+        if isinstance(b, PySeq):
+            i = z3.simplify(i)
+            if not z3.is_int_value(i): raise E2Error('sequence of records indexed by a non-constant (only bounded views support it)')
+            self.oblige(st, z3.BoolVal(0 <= i.as_long() < len(b.items)), 'bounds', 'index %s within [0, len(%s))' % (IR.pp_expr(e.idx), IR.pp_expr(e.base)))
+            if not (0 <= i.as_long() < len(b.items)): return self.fresh_val(b.et, 'oob', st)
+            return b.items[i.as_long()]
         if not isinstance(b, Seq): raise E2Error('index of non-sequence')
         self.oblige(st, z3.And(i >= 0, i < b.n), 'bounds', 'index %s within [0, len(%s))' % (IR.pp_expr(e.idx), IR.pp_expr(e.base)))
         if b.arr is None: raise E2Error('read of opaque sequence element')
@@ -444,6 +459,7 @@ class Engine:
                 v = l * z3.IntVal(2 ** r.as_long())
             else:
                 raise E2Error('int op %s' % op)
+            if z3.is_int_value(l) and z3.is_int_value(r): v = z3.simplify(v)
             return self.wrap(v, t, st)
         raise E2Error('binary %s on %s' % (op, t))
 
@@ -716,6 +732,7 @@ class Engine:
         """evaluate an lvalue base without emitting a second bounds obligation"""
         if e.k == 'index':
             b = self.ev_nocheck(e.base, st); i = self.ev(e.idx, st)
+            if isinstance(b, PySeq): return self.e_index(e, st)
             self.oblige(st, z3.And(i >= 0, i < b.n), 'bounds', 'index %s within [0, len(%s))' % (IR.pp_expr(e.idx), IR.pp_expr(e.base)))
             r = b.at(i)
             if isinstance(r, Seq): st.assume(z3.Implies(z3.And(i >= 0, i < b.n), z3.And(r.n >= 0, r.n <= 2 ** 31)))
@@ -1479,7 +1496,10 @@ class Verifier(Engine):
             tgt = c.args[0]
             b = self.ev_nocheck(tgt, st)
             fn = c.fn
-            if fn == 'seq.push_back':
+            if fn == 'seq.push_back' and isinstance(b, PySeq):
+                v = self.ev(c.args[1], st)
+                nb = PySeq(b.et, b.items + [v])
+            elif fn == 'seq.push_back':
                 v = self.ev(c.args[1], st)
                 if isinstance(v, Seq):
                     nb = Seq(b.et, z3.Store(b.arr, b.n, v.arr), b.n + 1, z3.Store(b.lens, b.n, v.n))
@@ -1634,6 +1654,7 @@ class Verifier(Engine):
                 st.env[base] = Rec(b.name, nf)
 
     def havoc_val(self, old, nm, how, st, t=None):
+        if isinstance(old, PySeq): raise E2Error('sequence of records modified in a loop with an invariant (bounded views only)')
         if isinstance(old, Seq) and how == 'elem' and old.arr is not None:
             if old.lens is not None:
                 return Seq(old.et, fresh('hv.' + nm, old.arr.sort()), old.n, old.lens)
